@@ -161,18 +161,59 @@ class CleanProof:
                                                cache=cache)
 
 
-async def harness_clean(usage, cand_content, cand_network, content_limit, network_limit):
-    calls = []
+class DBTwoClasses(DB):
+    """the storage as seen by clean(): one list of removable blobs per storage class"""
 
-    class DB2(DB):
-        async def get_stored_blobs(self, is_mine, is_network_blob=False):
-            self.asked.append((is_mine, is_network_blob))
-            return cand_network if is_network_blob else cand_content
-    db = DB2(usage, None)
+    def __init__(self, usage, cand_content, cand_network):
+        DB.__init__(self, usage, None)
+        self.cand_content = cand_content
+        self.cand_network = cand_network
+
+    async def get_stored_blobs(self, is_mine, is_network_blob=False):
+        self.asked.append((is_mine, is_network_blob))
+        return self.cand_network if is_network_blob else self.cand_content
+
+
+async def harness_clean(usage, cand_content, cand_network, content_limit, network_limit):
+    db = DBTwoClasses(usage, cand_content, cand_network)
     bm = BlobManager()
     dsm = DiskSpaceManager(Config(content_limit, network_limit), db, bm)
     await dsm.clean()
     return db.asked, bm.deleted
+
+
+@proof("C19", "clean.both-classes")
+class CleanBothClasses:
+    """one call of DiskSpaceManager.clean() runs the pass for BOTH storage classes: whatever the content pass did, a network class over
+    its limit is cleaned in the same call (and the other way round) - after a pass usage is within the limit for every class that had
+    removable blobs"""
+    inputs = dict(usage=USAGE, c_size=TInt(0, 2 ** 53), n_size=TInt(0, 2 ** 53), content_limit=TInt(0), network_limit=TInt(0))
+    note = "usage around the limits for both classes, one removable blob per class of 0 / 1 / 5 MB"
+
+    async def run(usage, c_size, n_size, content_limit, network_limit):
+        return await harness_clean(usage, [("content-blob", c_size, 1)], [("network-blob", n_size, 2)], content_limit, network_limit)
+
+    def ensures_each_class_over_its_limit_is_cleaned(usage, content_limit, network_limit, result):
+        asked, deleted = result
+        content_over = content_limit != 0 and used_mb(usage, False) > content_limit
+        network_over = used_mb(usage, True) > network_limit
+        return implies(content_over, (False, False) in asked and "content-blob" in deleted) and \
+            implies(network_over, (False, True) in asked and "network-blob" in deleted)
+
+    def ensures_no_class_within_its_limit_is_touched(usage, content_limit, network_limit, result):
+        asked, deleted = result
+        content_over = content_limit != 0 and used_mb(usage, False) > content_limit
+        network_over = used_mb(usage, True) > network_limit
+        return implies(not content_over, "content-blob" not in deleted) and implies(not network_over, "network-blob" not in deleted)
+
+    def samples():
+        for used_c in (0, 3 * MB, 10 * MB):
+            for used_n in (0, 3 * MB, 10 * MB):
+                for cl in (0, 2, 20):
+                    for nl in (0, 2, 20):
+                        for size in (0, MB, 5 * MB):
+                            yield dict(usage=dict(network_storage=used_n, content_storage=used_c, private_storage=0, total=used_c + used_n),
+                                       c_size=size, n_size=size, content_limit=cl, network_limit=nl)
 
 
 TRUSTED = [
